@@ -143,7 +143,7 @@ def all_ws(s):
 # ---------------------------------------------------------------------------------------------------
 class Node:
     __slots__ = ('t', 'doc', 'parent', 'kids', 'name', 'ns', 'prefix', 'local', 'data', 'attrs', 'owner', 'h', 'ro',
-                 'spec', 'isid', 'alive', 'ud', 'l2', 'serial', 'origin', 'mapdirty')
+                 'spec', 'isid', 'alive', 'ud', 'l2', 'serial', 'origin', 'mapdirty', 'iddirty')
 
     def __init__(self, t, doc, name=None, data=None):
         self.t = t
@@ -165,6 +165,7 @@ class Node:
         self.serial = 0
         self.origin = 'created' # created | cloned | imported | split | implicit | renamed
         self.mapdirty = False   # element: a namespace-aware replacement put a differently NAMED attribute into the slot of the old one
+        self.iddirty = False    # attribute: value changed through its children since it was registered as an ID (Xerces hashes by value)
 
     def docnode(self):
         return self if self.t == DOC else self.doc
@@ -412,12 +413,16 @@ class Model:
         p = n.parent
         if p is None:
             return
+        if p.t == ATTR:
+            p.iddirty = True
         for v in self.views.values():
             v.before_remove(self, n)
         p.kids.remove(n)
         n.parent = None
 
     def _attach(self, p, n, ref):
+        if p.t == ATTR:
+            p.iddirty = True
         if ref is None:
             p.kids.append(n)
         else:
@@ -429,6 +434,11 @@ class Model:
     def _set_data(self, n, new, kind, off=0, cnt=0, ins=0):
         """kind: 'replace-all' | 'delete' | 'insert' | 'append' """
         n.data = new
+        x = n.parent
+        while x is not None:
+            if x.t == ATTR:
+                x.iddirty = True
+            x = x.parent
         for v in self.views.values():
             v.text_changed(self, n, kind, off, cnt, ins)
 
@@ -879,6 +889,7 @@ class Model:
         e.cls = 'same-document'
         if n.t == ATTR:
             if n.owner is not None:
+                self._ambiguous_identity(n.owner, n)
                 n.owner.attrs.remove(n)
                 n.owner = None
                 if n.isid:
@@ -924,6 +935,8 @@ class Model:
             return e
         if n.ro or (n.t == ATTR and n.owner is not None and n.owner.ro) or (n.parent is not None and n.parent.ro):
             raise Undecided('rename of read-only node')
+        if n.t == ATTR and n.owner is not None:
+            self._ambiguous_identity(n.owner, n)
         events = []
         if n.ud:
             for k, (val, hd) in sorted(n.ud.items()):
@@ -1074,6 +1087,11 @@ class Model:
             clash = [x for x in el.attrs if x.name == a.name]
             if clash:
                 raise Undecided('nodeName duplicate in attribute map')
+        if not nsaware and a.local is not None and any(x is not old and x.ns == a.ns and (x.local == a.local or (x.local is None and x.name == a.local))
+                                                        for x in el.attrs):
+            # Level-1 setAttributeNode keyed on nodeName would leave two attributes with one expanded name: namespace-aware lookups of
+            # Xerces (removeAttributeNode, setIdAttributeNode, renameNode) then pick the first one (DOM L3 1.3.3: do not mix)
+            raise Undecided('expanded-name duplicate in attribute map')
         if old is not None:
             if nsaware and old.name != a.name and len(el.attrs) >= 2:
                 # DOMAttrMapImpl::setNamedItemNS stores the new node at the index of the old one although the vector is kept sorted
@@ -1094,6 +1112,7 @@ class Model:
             t.origin = 'implicit'
             a.kids.append(t); t.parent = a
         a.spec = True
+        a.iddirty = False       # Attr.setValue re-registers an ID attribute under its new value
 
     def op_setAttr(self, want, el, name, val):
         e = Exp()
@@ -1273,8 +1292,20 @@ class Model:
     def op_setAttrNodeNS(self, want, el, a):
         return self._op_setAttrNode(want, el, a, True)
 
+    def _ambiguous_identity(self, el, a):
+        """Xerces finds an attribute NODE through its (expanded) name; with two attributes of one name in the map the wrong one is hit"""
+        if el is None or el.t != ELEMENT:
+            return
+        if a.local is not None:
+            n = sum(1 for x in el.attrs if x.ns == a.ns and (x.local == a.local or (x.local is None and x.name == a.local)))
+        else:
+            n = sum(1 for x in el.attrs if x.name == a.name)
+        if n > 1:
+            raise Undecided('two attributes with one name in the element')
+
     def op_remAttrNode(self, want, el, a):
         e = Exp()
+        self._ambiguous_identity(el, a)
         errs = set()
         if el.ro:
             errs.add(NO_MOD)
@@ -1297,6 +1328,8 @@ class Model:
         if errs:
             e.codes = errs; e.cls = 'illegal'
             return e
+        if flag and not a.isid:
+            a.iddirty = False
         a.isid = bool(flag)
         e.cls = 'set' if flag else 'clear'
         return e
@@ -1309,6 +1342,7 @@ class Model:
 
     def op_setIdNode(self, want, el, a, flag):
         e = Exp()
+        self._ambiguous_identity(el, a)
         if a.owner is not el and not el.ro:
             # W3C: NOT_FOUND_ERR.  DOMElementImpl::setIdAttributeNode looks the attribute up by NAME and flags whatever it finds.
             b = self._attr_by_name(el, a.name) if a.local is None else self._attr_by_ns(el, a.ns, a.local)
@@ -1672,7 +1706,7 @@ class Model:
         for n in self.all_nodes_of(doc):
             if n.t == ATTR and n.isid and attr_value(n) == idv:
                 cands.append(n)
-        if any(k.h is not None for n in self.all_nodes_of(doc) if n.t == ATTR and n.isid for k in subtree(n)[1:]):
+        if any(n.iddirty or any(k.h is not None for k in subtree(n)[1:]) for n in self.all_nodes_of(doc) if n.t == ATTR and n.isid):
             # the value of an ID attribute may have been edited through its Text children behind the ID table's back
             raise Undecided('ID attribute with externally held children')
         if len(cands) == 0:
@@ -1881,7 +1915,8 @@ UD_KEYS = ['k1', 'k2', 'é']
 # break there (DESIGN section 5) and nothing can be compared afterwards
 # ('insert-into-self', 'count-huge' and 'leaf-firstchild-source' were in this set until the defects behind them were repaired in
 #  /repo: f2fc716, 0051c70, 9a920c0.  They are ordinary operand classes now and stay pinned in the check's special cases.)
-TAIL_ONLY = {'surround-hierarchy-error', 'releases-node-referenced-by-view', 'range-select-comment', 'attr-map-out-of-order', 'illegal-owned-attr', 'own-attribute', 'illegal-ns-aware-node', 'after-element-ending-in-text'}
+# ('range-select-comment' was on this list until /repo commit f5d60a2 repaired the Comment downcast in DOMRangeImpl)
+TAIL_ONLY = {'surround-hierarchy-error', 'releases-node-referenced-by-view', 'attr-map-out-of-order', 'illegal-owned-attr', 'own-attribute', 'illegal-ns-aware-node', 'after-element-ending-in-text'}
 
 
 # Deviations from the DOM text that the unchanged tree is known to have (notes/C13.md).  The GENERATOR follows them, so that
@@ -1890,7 +1925,8 @@ TAIL_ONLY = {'surround-hierarchy-error', 'releases-node-referenced-by-view', 'ra
 KNOWN_DEVIATIONS = set(ALL_QUIRKS)
 # the same for the views of C14 (notes/C14.md)
 VIEW_QUIRKS = ('treewalker-previousNode-one-level', 'treewalker-hidden-node-filter-reject', 'range-selectNode-chardata-selects-contents',
-               'range-toString-includes-comment-and-pi-data', 'range-contents-op-resets-offsets-in-partial-text')
+               'range-toString-includes-comment-and-pi-data', 'range-contents-op-resets-offsets-in-partial-text',
+               'range-insertNode-readonly-newnode')
 KNOWN_VIEW_DEVIATIONS = set(VIEW_QUIRKS)
 
 
@@ -2319,6 +2355,8 @@ class Gen:
                 return None
             if k == 'setAttrNodeNS' and not a.l2:
                 k = 'setAttrNode'
+            if k == 'setAttrNode' and a.local is not None and any(x is not a and x.ns == a.ns and x.local == a.local and x.name != a.name for x in el.attrs):
+                k = 'setAttrNodeNS'      # (the Level-1 call would leave two attributes with one expanded name: not decided)
             return self.emit(k, self.newh(), [el.h, a.h])
         if k == 'remAttrNode':
             a = self.pick(lambda n: n.t == ATTR and (n.owner is el or r.random() < 0.15))
@@ -3943,6 +3981,13 @@ def _rg_insert(self, v, new, e, surround=False):
         raise Undecided('insertNode into read-only content')
     if new.is_ancestor_or_self_of(sc):
         errs.add(HIERARCHY)
+    if new.ro:
+        # DOMRangeImpl::insertNode tests newNode->isReadOnly() in its ancestor loop (instead of the ancestors of the start container)
+        e.quirks.append('range-insertNode-readonly-newnode')
+        if 'range-insertNode-readonly-newnode' in self.quirk:
+            e.codes = errs | {NO_MOD}
+            e.cls = 'insertNode-readonly-newnode'
+            return e
     if errs:
         e.codes = errs
         e.cls = 'insertNode-illegal'
